@@ -324,8 +324,25 @@ func runC14(r *Run) {
 		}
 	case 2:
 		var opts []clgrpc.StreamInterceptorOption
+		var streamGiven func(send bool) bool
+		// possibly only ONE direction gets a limiter of ours: the other direction then runs on the built-in default
+		// limiter and must never touch the configured one
+		onlyDir := 0 // 0 both, 1 only recv, 2 only send
+		if giveLimiter && t.Chance(25, "one-direction-limiter") {
+			onlyDir = 1 + t.Intn(2, "which-direction")
+		}
+		streamGiven = func(send bool) bool {
+			return giveLimiter && (onlyDir == 0 || (onlyDir == 1 && !send) || (onlyDir == 2 && send))
+		}
 		if giveLimiter {
-			opts = append(opts, clgrpc.WithStreamRecvLimiter(recvLim), clgrpc.WithStreamSendLimiter(sendLim))
+			switch onlyDir {
+			case 1:
+				opts = append(opts, clgrpc.WithStreamRecvLimiter(recvLim))
+			case 2:
+				opts = append(opts, clgrpc.WithStreamSendLimiter(sendLim))
+			default:
+				opts = append(opts, clgrpc.WithStreamRecvLimiter(recvLim), clgrpc.WithStreamSendLimiter(sendLim))
+			}
 		}
 		if giveRespCls {
 			opts = append(opts, clgrpc.WithStreamServerResponseTypeClassifier(func(ctx context.Context, req interface{}, info *golangGrpc.StreamServerInfo, err error) clgrpc.ResponseType {
@@ -387,7 +404,7 @@ func runC14(r *Run) {
 			if r.Verbose {
 				r.Notef("op %d %s #%d inner err=%v -> events %v result %v", i, dir, idx, wantErr, evs, gotErr)
 			}
-			if !giveLimiter {
+			if !streamGiven(send) {
 				if len(evs) != 1 || gotErr != wantErr {
 					r.Fail("result-altered", "stream/default-limiter", "%s #%d with default limiters: events %v returned %v, stream produced %v", dir, idx, evs, gotErr, wantErr)
 					return
